@@ -7,8 +7,8 @@ HOOK_COMMITS = ["4a93766", "4da9cd2", "079b228"]
 CLAIMED = {
  "C01": dict(
    technique="property-based testing: enumerated token-class pairs/triples + token-soup and mutation fuzzing of parse() under a fuel hook, debug and release profiles compared by digest",
-   text="Generated-input search for a text on which parse() panics, loops (deterministic fuel verdict), or renders no error; enumerates every pair/triple of token classes, then ~1.5M (quick) soup/mutant/deep-chain texts per profile. Exploration: finds counterexamples, never proves absence.",
-   note="trusts the parse-fuel bound 500x(len+10) as 'does not terminate'; rustc/std; proptest",
+   text="Generated-input search for a text on which parse() panics, loops (deterministic fuel verdict), or renders no error; enumerates every pair/triple of token classes, then ~1.5M (quick) soup/mutant/deep-chain texts per profile; 54 flat floods (20 000 / 50 000 repetitions of one unit without nesting) are parsed on a 2 MiB stack in-process and by the real rrss tool (unoptimised build in the dev profile). Exploration: finds counterexamples, never proves absence.",
+   note="trusts the parse-fuel bound 500x(len+10) as 'does not terminate'; the engine's dev profile is opt-level 2 + debug assertions + overflow checks (only the flood leg sees a build without optimisation); rustc/std; proptest",
    ref="5/C01"),
  "C02": dict(
    technique="property-based testing: round trip generated tree -> rendered text (random spelling tape) -> parse -> tree, three spellings per tree, both profiles",
@@ -110,7 +110,7 @@ CLAIMED = {
 NA_REASON = {
 }
 
-SUFFIX = " The generators also produce the rare wide and history-dependent shapes that four rounds of independently seeded breaking changes showed to matter (DESIGN.md section 10; the evidence file's rule lists them); thorough tier: 10-30x the cases."
+SUFFIX = " The generators also produce the rare wide and history-dependent shapes that five rounds of independently seeded breaking changes showed to matter (DESIGN.md section 10; the evidence file's rule lists them). The cases of a shard run one after another on one thread, with interludes in between (runs that fail deep inside calls, streams that fail mid-line, rejected texts, lint runs): a case whose result depends on what ran before it on the thread is reported with that history in its replay (DESIGN.md section 8). Thorough tier: 2-30x the cases."
 FUZZ_SUFFIX = " The thorough tier adds a coverage-guided libFuzzer leg carrying the same oracle."
 
 ALL = [json.loads(l)["id"] for l in open("/verif/properties.jsonl")]
